@@ -848,6 +848,9 @@ func (module *InMemoryStorage) fetchConsumer(request *protocol.StorageRequest, r
 		requestLogger.Debug("purge expired consumer", zap.Int64("last_commit", consumerMap.lastCommit))
 		delete(clusterMap.consumer, request.Group)
 		clusterMap.consumerLock.Unlock()
+
+		// The group is gone, so its metrics must go as well (as in deleteGroup)
+		httpserver.DeleteConsumerMetrics(request.Cluster, request.Group)
 		return
 	}
 
